@@ -70,3 +70,25 @@ if __name__ == '__main__':
                 print("  first diff at token", i, ":", ' '.join(ta[max(0,i-6):i+6]), "|||", ' '.join(tb[max(0,i-6):i+6]))
                 break
         print()
+
+def split_native(line):
+    """L2 impl line -> (line without native parts, list per op of (s3db_tokens, native_tokens or None))"""
+    parts = line.split(' ; ')
+    head, ops = parts[0], parts[1:]
+    kept, pairs = [head], []
+    for op in ops:
+        toks = op.split()
+        ni = next((i for i, t in enumerate(toks) if t.startswith('nat:')), None)
+        if ni is None:
+            kept.append(op.strip()); pairs.append((toks, None))
+            continue
+        # native part: from the nat: token up to an 'M' group (mutation log belongs to s3db)
+        mi = next((i for i in range(ni, len(toks)) if toks[i] == 'M'), len(toks))
+        nat = toks[ni:mi]
+        nat[0] = nat[0][4:]
+        nat = [t for t in nat if t != '']
+        if toks and toks[0] in ('SA', 'SD'):
+            nat = [toks[0]] + nat
+        s3 = toks[:ni] + toks[mi:]
+        kept.append(' '.join(s3)); pairs.append((s3, nat))
+    return ' ; '.join(kept), pairs
